@@ -7,9 +7,9 @@
    Stage 2: step 11.5 (resolve_intrinsic_track_sizes) is modelled in full in Model/GridIntrinsic.v (item batching, the
    span-1 fast path, the six distribution steps, growth-limit variants, flex-crossing items) with the items' content
    sizes as an oracle; theorems C09_intrinsic_* / C09_fixed_* / C09_gutters_*, proofs in Proofs/GridIntrinsicProofs.v. *)
-From Coq Require Import ZArith NArith QArith Bool List.
+From Coq Require Import ZArith NArith QArith Bool List Lia.
 From TV Require Import Num.Num Num.QNum Gen.GridTracksGen Model.GridTracks Model.GridIntrinsic Proofs.GridTracksProofs
-  Proofs.GridIntrinsicProofs.
+  Proofs.GridIntrinsicProofs Proofs.GridTracksAudit.
 Import ListNotations.
 
 (* ---- structure: gutter, (track, gutter)*; both outer gutters collapsed with zero sizing functions; every inner gutter
@@ -36,13 +36,17 @@ Theorem C09_initial_sizes : forall (T : Type) `{Num T} inner (tracks : list (tra
              kind t' = kind t /\ minf t' = minf t /\ maxf t' = maxf t.
 Proof. intros. eapply initialize_sizes_nth; eauto. Qed.
 
-(* ---- explicit count = length of the expanded template; as many explicit tracks are created as are counted *)
+(* ---- explicit count = length of the expanded template; as many explicit tracks are created as are counted.
+   (audit, wave 5c: the earlier form `e = 0 \/ ...` was satisfied by a function that always returns 0.)  The count is 0 EXACTLY
+   for an empty template, a repetition of an empty track list, or an invalid template (more than one auto-repetition); in every
+   other case it is the number of tracks of the template expanded with the computed number of auto-repetitions *)
 Theorem C09_explicit_count : forall (T : Type) `{Num T} (template : list (tsf T)) inner gap size_is_maximum,
   let e := explicit_grid_size template inner gap size_is_maximum in
-  e = 0%N \/
-  (n_auto template = 0%nat /\ e = spec_count 0 template) \/
-  (n_auto template = 1%nat /\ e = spec_count (num_repetitions template inner gap size_is_maximum) template).
-Proof. intros. apply explicit_count_spec. Qed.
+  (template = [] \/ existsb has_empty_repetition template = true \/ template_is_valid template = false -> e = 0%N) /\
+  (template <> [] -> existsb has_empty_repetition template = false -> template_is_valid template = true ->
+   (n_auto template = 0%nat /\ e = spec_count 0 template) \/
+   (n_auto template = 1%nat /\ e = spec_count (num_repetitions template inner gap size_is_maximum) template)).
+Proof. intros. apply explicit_count_exact. Qed.
 
 Theorem C09_tracks_match_counts : forall (T : Type) `{Num T} counts (template : list (tsf T)) autos gap has_items inner gapf mx,
   explicit counts = explicit_grid_size template inner gapf mx ->
@@ -56,8 +60,13 @@ Qed.
 
 (* ---- fr fill.  With a definite content-box size S, after expand_flexible_tracks the base sizes sum to at least S
    provided the flex factors of the tracks still treated as flexible in the final iteration of find_size_of_fr sum
-   to at least 1.  (track_ok2: base sizes and flex factors finite and >= 0.) *)
-Theorem C09_fr_fill : forall (tracks : list (track XQ)) (S : XQ) amin amax items,
+   to at least 1.  (track_ok2: base sizes and flex factors finite and >= 0.)
+   PARTIAL (audit, wave 5c).  Missing with respect to the property text: (1) the property's premise is "the fr factors on the
+   axis sum to at least 1", this theorem needs the sum over the tracks STILL FLEXIBLE AT EXIT -- with the property's premise the
+   statement is false (C09_fr_fill_refuted, known finding fr-fill-floored-track); (2) it is about step 11.7 alone: `tracks` is the
+   state after 11.4-11.6 and its `track_ok2` is assumed, not derived from the styles; (3) it is not composed with
+   track_sizing_algorithm_full (11.8 stretch only adds, alignment does not change sizes, but that is not a theorem). *)
+Theorem C09_fr_fill_partial : forall (tracks : list (track XQ)) (S : XQ) amin amax items,
   Forall track_ok2 tracks -> finite S ->
   x_leb (Fin 1) (final_flex_factor_sum tracks S) = true ->
   x_leb S (@fsum XQ _ (map base_size (expand_flexible_tracks amin amax (Definite S) items tracks))) = true.
@@ -312,12 +321,115 @@ Example C09_example_fr_fill_premises :
   snd (fr_exit tracks (Fin 300)) = true /\ x_leb (Fin 1) (final_flex_factor_sum tracks (Fin 300)) = true.
 Proof. vm_compute. split; reflexivity. Qed.
 
+
+(* ---------------------------------------------------------------------------------------------------------------------
+   Computed instances of the premises (audit, wave 5c) *)
+
+(* C09_explicit_count / C09_tracks_match_counts with e <> 0: `100px repeat(2, 10px 20px)` has 5 explicit tracks;
+   `50px repeat(auto-fill, 30px 20px)` in 300px with gap 10 repeats 3 times: 7 explicit tracks, 10 with 1 + 2 implicit ones *)
+Definition t_px (v : Q) : nrt XQ := (SLength (Fin v), SLength (Fin v)).
+Example C09_example_explicit_count :
+  explicit_grid_size [px_track 100; TRepeat (RCount 2) [t_px 10; t_px 20]] (Some (Fin 300)) (SLength (Fin 10)) true = 5%N /\
+  n_auto [px_track 100; TRepeat (RCount 2) [t_px 10; t_px 20]] = 0%nat /\
+  let tpl := [px_track 50; TRepeat RAutoFill [t_px 30; t_px 20]] in
+  n_auto tpl = 1%nat /\ num_repetitions tpl (Some (Fin 300)) (SLength (Fin 10)) true = 3%N /\
+  explicit_grid_size tpl (Some (Fin 300)) (SLength (Fin 10)) true = 7%N /\ spec_count 3 tpl = 7%N /\
+  count_tracks (initialize_grid_tracks (mk_counts 1 7 2) tpl [] (SLength (Fin 10)) (fun _ => true)) = 10%nat.
+Proof. vm_compute. repeat split; reflexivity. Qed.
+
+(* C09_fr_fill_partial / C09_fr_terminates / C09_fr_proportional_partial with a RESTART of find_size_of_fr: `1fr 1fr 1fr`, gap 10,
+   300px, an item of 150 in column 0: h1 = 280/3 < 150 -> restart, h2 = (300-20-150)/2 = 65; flexible factor sum 2;
+   150 + 65 + 65 + 20 = 300.  One iteration is NOT enough (the exit flag is false with fuel 1). *)
+Definition ex_fr_tracks : list (track XQ) :=
+  maximise_tracks (Some (Fin 300)) (Definite (Fin 300))
+    (resolve_intrinsic_span1 (Some (Fin 300)) [(1%nat, Fin 150)]
+       (initialize_track_sizes (Some (Fin 300))
+          (initialize_grid_tracks (mk_counts 0 3 0) [fr_track 1; fr_track 1; fr_track 1] [] (SLength (Fin 10)) (fun _ => true)))).
+Example C09_example_fr_fill_restart :
+  Forall track_ok2 ex_fr_tracks /\
+  xq_eqb_list (map base_size ex_fr_tracks) [Fin 0; Fin 150; Fin 10; Fin 0; Fin 10; Fin 0; Fin 0] = true /\
+  snd (fr_loop 1 ex_fr_tracks (Fin 300) PInf) = false /\
+  (let '(hp, h, ok) := fr_exit ex_fr_tracks (Fin 300) in (x_eqb hp (Fin (280 # 3)), x_eqb h (Fin 65), ok)) = (true, true, true) /\
+  x_eqb (final_flex_factor_sum ex_fr_tracks (Fin 300)) (Fin 2) = true /\
+  xq_eqb_list (map base_size (expand_flexible_tracks None None (Definite (Fin 300)) [] ex_fr_tracks))
+              [Fin 0; Fin 150; Fin 10; Fin 65; Fin 10; Fin 65; Fin 0] = true /\
+  map (flexible_at (Fin (280 # 3))) ex_fr_tracks = [false; false; false; true; false; true; false].
+Proof.
+  split.
+  - let l := eval vm_compute in ex_fr_tracks in replace ex_fr_tracks with l by (vm_compute; reflexivity).
+    repeat (apply Forall_cons; [unfold track_ok2, track_fin, qb, qf; vm_compute; repeat split; try exact I; intro; discriminate|]). apply Forall_nil.
+  - vm_compute. repeat split; reflexivity.
+Qed.
+
+(* C09_fixed_exact_maximise_partial / C09_distribute_terminates / C09_intrinsic_distribute_terminates:
+   `100px minmax(100px, 100.008px) minmax(100px, 100.009px)` in 400px: G = 2, the distribution loop iterates twice; fuel 3 = G + 1
+   and the runner's fuel 22 = distribute_fuel give the same result; the FIXED track ends at 100.017 (the known finding) *)
+Definition ex_max_tracks : list (track XQ) :=
+  resolve_intrinsic_span1 (Some (Fin 400)) []
+    (initialize_track_sizes (Some (Fin 400))
+       (initialize_grid_tracks (mk_counts 0 3 0) [px_track 100; minmax_px 100 (100008 # 1000); minmax_px 100 (100009 # 1000)] []
+                               (SLength (Fin 0)) (fun _ => true))).
+Example C09_example_maximise_premises :
+  let inner := Some (Fin 400) in
+  Forall (tok inner) ex_max_tracks /\
+  Forall (wt (fun _ => one) base_size (fit_content_limited_growth_limit inner)) ex_max_tracks /\
+  G inner ex_max_tracks = 2%nat /\ distribute_fuel ex_max_tracks = 22%nat /\
+  (exists t, nth_error ex_max_tracks 1 = Some t /\ fixed_like t /\ x_eqb (base_size t) (Fin 100) = true) /\
+  xq_eqb_list (map incurred (snd (mloop inner 1 (Fin 100) ex_max_tracks))) (repeat (Fin (8 # 1000)) 7) = true /\
+  xq_eqb_list (map incurred (snd (mloop inner 3 (Fin 100) ex_max_tracks))) (repeat (Fin (17 # 1000)) 7) = true /\
+  xq_eqb_list (map incurred (snd (mloop inner 22 (Fin 100) ex_max_tracks))) (repeat (Fin (17 # 1000)) 7) = true /\
+  x_eqb (base_at (maximise_tracks inner (Definite (Fin 400)) ex_max_tracks) 1) (Fin (100017 # 1000)) = true.
+Proof.
+  cbv zeta. split; [|split].
+  - let l := eval vm_compute in ex_max_tracks in replace ex_max_tracks with l by (vm_compute; reflexivity).
+    repeat (apply Forall_cons; [unfold tok, tfin; vm_compute; repeat split; try exact I; intro; discriminate|]). apply Forall_nil.
+  - let l := eval vm_compute in ex_max_tracks in replace ex_max_tracks with l by (vm_compute; reflexivity).
+    repeat (apply Forall_cons; [unfold wt; cbn; repeat split; try (eexists; split; [reflexivity|vm_compute; intro; discriminate]);
+                                try (eexists; reflexivity); right; eexists; reflexivity|]). apply Forall_nil.
+  - split; [vm_compute; reflexivity|]. split; [reflexivity|]. split.
+    + eexists. split; [vm_compute; reflexivity|]. split; [|vm_compute; reflexivity].
+      unfold fixed_like. cbn. repeat split.
+    + vm_compute. repeat split; reflexivity.
+Qed.
+
+(* the premises of C09_fixed_exact_partial (tracks 1 and 7), C09_gutters_exact_partial (gutter 2) and
+   C09_intrinsic_preserves_fixed_partial on the grid of C09_example_intrinsic; gutter 4 is crossed by the spanning item (there the
+   premise fails, and so does the conclusion: C09_gutters_exact_refuted) *)
+Definition exi_template : list (tsf XQ) := [px_track 100; mm_track SAuto SAuto; mm_track SMinContent SMinContent; px_track 30].
+Definition exi_inner : option XQ := Some (Fin 400).
+Definition exi_tracks0 : list (track XQ) := q_tracks0 exi_template (SLength (Fin 10)) exi_inner.
+Definition exi_leaves : list (nat * nat * XQ) := [(0%nat, 1%nat, Fin 50); (1%nat, 2%nat, Fin 120); (3%nat, 1%nat, Fin 20)].
+Definition exi_items : list (item XQ) := q_leaf_items exi_tracks0 exi_leaves.
+Example C09_example_fixed_exact_premises :
+  (forall i, i = 1%nat \/ i = 7%nat ->
+     (forall it, In it exi_items -> alone it i) /\
+     exists t v, nth_error exi_tracks0 i = Some t /\ kind t = KTrack /\ minf t = maxf t /\ definite_value exi_inner (minf t) = Some (Fin v) /\
+                 incurred t = Fin 0 /\ base_planned t = Fin 0 /\ limit_planned t = Fin 0) /\
+  ((forall it, In it exi_items -> ~ in_range it 2) /\
+   exists g, nth_error exi_tracks0 2 = Some g /\ kind g = KGutter /\ minf g = SLength (Fin 10) /\ maxf g = SLength (Fin 10) /\
+             definite_value exi_inner (SLength (Fin 10)) = Some (Fin 10) /\
+             incurred g = Fin 0 /\ base_planned g = Fin 0 /\ limit_planned g = Fin 0) /\
+  (exists it, In it exi_items /\ in_range it 4) /\
+  track_sizing_algorithm_full (leaf_contrib exi_inner exi_tracks0 (map snd exi_leaves)) None None true (Definite (Fin 400)) exi_inner
+    exi_items exi_tracks0 = example_intrinsic.
+Proof.
+  let l := eval vm_compute in exi_items in assert (EI : exi_items = l) by (vm_compute; reflexivity).
+  split; [|split; [|split]].
+  - intros i Hi. split.
+    + rewrite EI. destruct Hi as [-> | ->]; intros it [<-|[<-|[<-|[]]]]; unfold alone, in_range; vm_compute; lia.
+    + destruct Hi as [-> | ->]; do 2 eexists; (split; [vm_compute; reflexivity|]); repeat split; reflexivity.
+  - split; [rewrite EI; intros it [<-|[<-|[<-|[]]]]; unfold in_range; vm_compute; lia|].
+    eexists. split; [vm_compute; reflexivity|]. repeat split; reflexivity.
+  - rewrite EI. eexists. split; [right; left; reflexivity|]. unfold in_range. vm_compute. lia.
+  - vm_compute. reflexivity.
+Qed.
+
 Print Assumptions C09_structure.
 Print Assumptions C09_structure_index.
 Print Assumptions C09_initial_sizes.
 Print Assumptions C09_explicit_count.
 Print Assumptions C09_tracks_match_counts.
-Print Assumptions C09_fr_fill.
+Print Assumptions C09_fr_fill_partial.
 Print Assumptions C09_fr_terminates.
 Print Assumptions C09_fr_fill_refuted.
 Print Assumptions C09_fr_proportional_partial.
